@@ -86,8 +86,28 @@ def worlds(tier):
             yield combo
 
 
+def subparent_cases(tier):
+    """the flattened expression sits on a SUB-QUERY (with a disjunctive / negated / plain condition of its own); the
+    element is only selected, or selected next to the sub-query, or conditioned; evaluated FOUR times"""
+    small = [(), (1,), (1, 2), (2, 3), 3, (1, 1)]
+    for combo in itertools.product(small, repeat=3):
+        if tier == "quick" and hash(combo) % 2:
+            continue
+        for pk in SUBPARENTS:
+            for sk in ("e", "ep_sub", "e_cond"):
+                yield (("sub", pk) + combo, sk, "none", True)
+
+
+SUBPARENTS = {
+    "or": ("or", ("cmp", "eq", A(X, "q"), L(1)), ("cmp", "eq", A(X, "p"), L(2))),
+    "notand": ("not", ("and", ("cmp", "ne", A(X, "q"), L(1)), ("cmp", "ne", A(X, "p"), L(2)))),
+    "plain": ("cmp", "ge", A(X, "q"), L(2)),
+}
+
+
 def cases(tier, inst):
     yield from friend_cases(tier)
+    yield from subparent_cases(tier)
     seen = set()
     for combo in worlds(tier):
         if combo in seen:
@@ -113,6 +133,9 @@ def friend_cases(tier):
 
 
 def wspec_of(combo):
+    if combo and combo[0] == "sub":
+        return (("P", "Item", tuple((("p", i % 2 + 1), ("q", (1, 2, 3)[i % 3]), ("items", inner))
+                                    for i, inner in enumerate(combo[2:]))),)
     if combo and combo[0] == "obj":
         return (("P", "Item", tuple((("p", i % 2 + 1), ("items", ())) for i in range(len(combo) - 1))),)
     return (("P", "Item", tuple((("p", i % 2 + 1), ("items", inner)) for i, inner in enumerate(combo))),)
@@ -120,6 +143,14 @@ def wspec_of(combo):
 
 def query_of(case):
     combo, sk, ck, caching = case
+    if combo and combo[0] == "sub":
+        parent = ("sub1", ("Q", "an", "entity", X, (SUBPARENTS[combo[1]],), ()))
+        e = ("fl", A(parent, "items"))
+        if sk == "e":
+            return ("Q", "an", "setof", (e,), (), (VX,))
+        if sk == "ep_sub":
+            return ("Q", "an", "setof", (e, parent), (), (VX,))
+        return ("Q", "an", "setof", (e,), (("cmp", "ge", e, L(1)),), (VX,))
     c = (OCONDS if combo and combo[0] == "obj" else CONDS)[ck]
     return ("Q", "an", "setof", SELS[sk], (c,) if c else (), (VX,))
 
@@ -134,8 +165,13 @@ def run_case(case, inst):
             for po, inner in zip(world["P"], combo[1:]):
                 po.items = tuple(world["P"][j] for j in inner)
         ref = Q.Ref(world, inst)
-        exp = [tuple(ref.value(s, env) for s in q[3]) for env in ref.solutions(q)]
-        total = sum(len(i) if isinstance(i, tuple) else 1 for i in combo if i != "obj")
+        if combo and combo[0] == "sub":
+            parents = [o for o in world["P"] if ref.holds(SUBPARENTS[combo[1]], {"x": o})]
+            pairs = [(po, el) for po in parents for el in (po.items if isinstance(po.items, tuple) else (po.items,))]
+            exp = [(el, po) if sk == "ep_sub" else (el,) for po, el in pairs]
+        else:
+            exp = [tuple(ref.value(s, env) for s in q[3]) for env in ref.solutions(q)]
+        total = sum(len(i) if isinstance(i, tuple) else 1 for i in combo if not isinstance(i, str))
         try:
             obj, b = Q.build(q, world, inst)
             sel = b.sel[q]
@@ -144,12 +180,18 @@ def run_case(case, inst):
             return exc_obs(e), None, exp, total
         try:
             got2 = [tuple(r[s] for s in sel) for r in obj.evaluate()]
+            if combo and combo[0] == "sub":
+                # two more evaluations: what the second one leaves behind shows in the third
+                got3 = [tuple(r[s] for s in sel) for r in obj.evaluate()]
+                got4 = [tuple(r[s] for s in sel) for r in obj.evaluate()]
+                if diff_rows(got2, exp, count=sk == "ep_sub") is None:
+                    got2 = got3 if diff_rows(got3, exp, count=sk == "ep_sub") is not None else got4
         except Exception as e:
             got2 = exc_obs(e)
         return got1, got2, exp, total
 
     got1, got2, exp, total = run_isolated(body, caching=caching)
-    multiset = sk != "e"
+    multiset = sk not in ("e", "e_cond")
     res = {"ok": True, "nontrivial": 0 < len(exp) < total, "transitions": 2,
            "tags": [f"sel={sk}", f"cond={ck}", f"caching={'on' if caching else 'off'}", f"parents={len(combo)}"]
                    + (["repeated_in_one_collection"] if any(isinstance(i, tuple) and len(set(i)) < len(i) for i in combo) else [])
